@@ -6,11 +6,14 @@ import os
 import re
 
 V = os.path.dirname(os.path.dirname(os.path.abspath(__file__)))
-notes = json.load(open(os.path.join(V, "seeded", "notes_round2.json")))
+import sys
+rnd = sys.argv[1] if len(sys.argv) > 1 else "2"
+ks = {"2": ("3", "4"), "3": ("5", "6")}[rnd]
+notes = json.load(open(os.path.join(V, "seeded", f"notes_round{rnd}.json")))
 rows = ["| seed | what it changes (needs) | reported by | first result before strengthening |", "|---|---|---|---|"]
 for d in sorted(os.listdir(os.path.join(V, "seeded"))):
     mp = os.path.join(V, "seeded", d, "meta.json")
-    if not os.path.exists(mp) or d.split("-")[1] not in ("3", "4"):
+    if not os.path.exists(mp) or d.split("-")[1] not in ks:
         continue
     m = json.load(open(mp))
     c = m.get("confirmed_by_lead", {})
@@ -22,7 +25,7 @@ for d in sorted(os.listdir(os.path.join(V, "seeded"))):
     rows.append(f"| {d} | {str(m.get('summary', ''))[:150].replace('|', '/')} | {', '.join(rep) or '-'} | {notes.get(d, '')} |")
 p = os.path.join(V, "DESIGN.md")
 s = open(p).read()
-begin, end = "<!-- seeds2:begin -->", "<!-- seeds2:end -->"
+begin, end = f"<!-- seeds{rnd}:begin -->", f"<!-- seeds{rnd}:end -->"
 block = begin + "\n" + "\n".join(rows) + "\n" + end
 if begin in s:
     s = re.sub(re.escape(begin) + r".*?" + re.escape(end), lambda _: block, s, flags=re.S)
